@@ -56,7 +56,7 @@ WeakKinds   == {"waddr", "wsender", "wcaller"}
 ForceKinds  == IF "D2" \in Dev THEN {"addr", "owning", "sender"} ELSE StrongKinds
 
 UnbornActor ==
-  [pc |-> "unborn", cap |-> Unb, strat |-> "restart", stream |-> FALSE, tmo |-> 0, failto |-> FALSE,
+  [pc |-> "unborn", cap |-> Unb, strat |-> "restart", stream |-> FALSE, tmo |-> -1, failto |-> FALSE,    \* tmo: -1 = no handler timeout
    sscr |-> <<>>, pscr |-> <<>>, fscr |-> <<>>,
    mq |-> <<>>, parked |-> <<>>, rx |-> "open",
    curp |-> NoPayload, scr |-> <<>>, ip |-> 0, cbk |-> "none", tdl |-> -1, sdl |-> -1,
@@ -816,7 +816,7 @@ PingHandled(a) ==
 HandleBegin(a) ==
   /\ act[a].pc = "dequeued" /\ act[a].curp.k = "task" /\ act[a].curp.rs # "ping"
   /\ act' = [act EXCEPT ![a] = [@ EXCEPT !.pc = "handling", !.scr = act[a].curp.scr, !.ip = 1,
-                                          !.tdl = IF act[a].tmo > 0 /\ ~act[a].stream THEN now + act[a].tmo ELSE -1]]
+                                          !.tdl = IF act[a].tmo >= 0 /\ ~act[a].stream THEN now + act[a].tmo ELSE -1]]
   /\ hst' = [hst EXCEPT !.hb = [@ EXCEPT ![a] = Append(@, [m |-> act[a].curp.m, inc |-> act[a].inc, inst |-> act[a].inst, src |-> act[a].curp.src])]]
   /\ UNCHANGED <<hnd, cli, rsp, tmr, reg, now>>
 
@@ -843,6 +843,21 @@ TimeoutFire(a) ==
           /\ cli' = IF cli[a].nest = "none" THEN cli ELSE [cli EXCEPT ![a] = [IdleClient EXCEPT !.n = cli[a].n]]
           /\ reg' = IF reg.lock = a THEN [reg EXCEPT !.lock = "free"] ELSE reg
           /\ UNCHANGED <<hnd, tmr, now>>
+
+\* a configured timeout of ZERO: the Delay is due the moment it is created, and select! may poll it before the
+\* handler future was polled even once - the payload (a ping, too) is dropped without the handler ever starting
+TimeoutBeforeStart(a) ==
+  /\ act[a].pc = "dequeued" /\ act[a].curp.k = "task" /\ act[a].tmo = 0 /\ ~act[a].stream
+  \* (for the ordering properties the payload counts as taken in its turn and abandoned at once)
+  /\ LET H1 == [hst EXCEPT !.abt = @ \cup {<<a, act[a].curp.m, now, now>>},
+                           !.hb = [@ EXCEPT ![a] = Append(@, [m |-> act[a].curp.m, inc |-> act[a].inc, inst |-> act[a].inst, src |-> "dropped"])],
+                           !.ab = [@ EXCEPT ![a] = Append(@, act[a].curp.m)]] IN
+     IF act[a].failto
+     THEN FailH(a, "timeout", H1)
+     ELSE /\ act' = [act EXCEPT ![a] = [@ EXCEPT !.pc = "idle", !.curp = NoPayload]]
+          /\ rsp' = DropResp(rsp, CurResp(act[a]))
+          /\ hst' = H1
+          /\ UNCHANGED <<hnd, cli, tmr, reg, now>>
 
 \* Restart payload (restart_strategy.rs:10-37)
 RestartTaken(a) ==
@@ -908,7 +923,7 @@ LoopStep(a) ==
   \/ StartedBegin(a) \/ ScriptStep(a) \/ StartedEnd(a) \/ Dequeue(a) \/ MailboxClosed(a) \/ StopTaken(a)
   \/ PingHandled(a) \/ HandleBegin(a) \/ HandleEnd(a) \/ TimeoutFire(a) \/ RestartTaken(a)
   \/ RestartStopped(a) \/ RestartRefresh(a) \/ RestartStarted(a) \/ StoppedEnd(a) \/ Notify(a) \/ Exit(a)
-  \/ StreamItem(a) \/ StreamDone(a) \/ FinishedEnd(a)
+  \/ StreamItem(a) \/ StreamDone(a) \/ FinishedEnd(a) \/ TimeoutBeforeStart(a)
 
 LoopCanStep(a) ==
   CASE act[a].pc = "starting" -> TRUE
